@@ -43,6 +43,7 @@ func main() {
 	if *sub != "" {
 		os.Exit(checks.Sub(ctx, *sub, fs.Args()))
 	}
+	ctx.Out = *out
 	ck.Setup(ctx)
 	if *replay != "" {
 		ok, sig, msg, err := ctx.Replay(*replay)
